@@ -144,6 +144,18 @@ if hasattr(torch, "uint32"):
     _TORCH_DTYPES = _TORCH_DTYPES + (torch.uint32,)
 if hasattr(torch, "uint64"):
     _TORCH_DTYPES = _TORCH_DTYPES + (torch.uint64,)
+# every other dtype this torch has (float8 variants, ...): a tensor of any dtype can
+# be saved, its dtype is written as str(dtype) and must be readable back
+_TORCH_DTYPES = _TORCH_DTYPES + tuple(
+    sorted(
+        {
+            dtype
+            for dtype in vars(torch).values()
+            if isinstance(dtype, torch.dtype) and dtype not in _TORCH_DTYPES
+        },
+        key=str,
+    )
+)
 _STRDTYPE2DTYPE = {str(dtype): dtype for dtype in _TORCH_DTYPES}
 _DTYPE2STRDTYPE = {dtype: str_dtype for str_dtype, dtype in _STRDTYPE2DTYPE.items()}
 
